@@ -1,4 +1,5 @@
 import Tickit.Proof.WinFocus
+import Tickit.Proof.WinFocusReq
 import Tickit.Gen.WinFocusSrc
 /-
   C15 — After a flush the terminal cursor reflects the focused window, or is hidden.
@@ -315,14 +316,60 @@ theorem restore_requested_take_focus (fx : Fixes) (t : Tree) (win : Nat) (r : Tr
   focusGained_requests fx _ _ _ _ _ h hp
 
 /-- The clause for `take_focus` in full: also below an invisible ancestor, where nothing is requested and nothing has
-    to be (the focus chain from the root is untouched).  OPEN — the visible-path half is `restore_requested_take_focus`. -/
+    to be (the focus chain from the root and the composition are untouched). -/
 def take_focus_requests_full (fx : Fixes) : Prop :=
   ∀ (t : Tree) (win : Nat) (r : Tree × List Event), wfB t = true → takeFocus fx t win = .ok r → Requests t r.1
 
-/-- `hide`, `show`, `close` request what the property needs (full statement; false of the unchanged library when the
-    window exposes nothing). -/
+/-- … and it holds, for every state of the source (`Proof/WinFocusReq.lean`: once the climb of `_focus_gained` touches
+    the focus chain it reaches the root and requests the restore; otherwise it writes only windows off the chain, and
+    never a field the composition reads). -/
+theorem take_focus_requests (fx : Fixes) : take_focus_requests_full fx :=
+  fun _ _ _ hwf h => takeFocus_requests hwf h
+
+/-- `Good15 t` (Proof/WinFocusReq.lean): the store invariant `wfB`, the structural invariants of the window engine
+    (C01: parent pointers agree with child lists, no repeated children, one root window at the origin, positive size),
+    non-empty damage rectangles, and the flag discipline (recorded damage is flagged; a pending expose or restore keeps
+    the flush from being skipped).  `good15B` is its executable form (checked by the driver on every observed tree).
+
+    `hide`, `show`, `close` and a geometry change request what the property needs (full statement; false of the
+    unrepaired model when the window exposes nothing). -/
 def hide_requests_full (fx : Fixes) : Prop :=
-  ∀ (t t' : Tree) (win : Nat), wfB t = true → hideWin fx t win = .ok t' → Requests t t'
+  ∀ (t t' : Tree) (win : Nat), Good15 t → hideWin fx t win = .ok t' → Requests t t'
+
+/-- `restore_requested` for `hide`, `show`, `close` (repaired source) and for a geometry change followed by the exposes
+    of the old and the new area (C01's proviso; any window but the root): afterwards a restore or an expose is pending
+    and the flush will not be skipped, or `cursorSpec` is what it was.  Built on the window engine's damage
+    specification (C01 `hide_step`, `show_step`, `close_step`, `geom_step`): every terminal cell whose owner changes is
+    covered by the damage the operation records — applied to the screen that shows in every cell who owns it. -/
+theorem restore_requested_hide (fx : Fixes) (hfx1 : fx.hiddenRoot = true) (hfx2 : fx.chainRestore = true) :
+    hide_requests_full fx :=
+  fun _ _ _ hg h => hide_requests hfx1 hfx2 hg h
+
+theorem restore_requested_show (fx : Fixes) (hfx2 : fx.chainRestore = true) (t t' : Tree) (win : Nat)
+    (hg : Good15 t) (h : showWin fx t win = .ok t') : Requests t t' :=
+  show_requests hfx2 hg h
+
+theorem restore_requested_close (fx : Fixes) (hfx2 : fx.chainRestore = true) (t t' : Tree) (win : Nat)
+    (hg : Good15 t) (h : closeWin fx t win = .ok t') : Requests t t' :=
+  close_requests hfx2 hg h
+
+theorem restore_requested_move (t t' : Tree) (win : Nat) (rect : Rect) (hg : Good15 t) (h0 : win ≠ 0)
+    (h : WinFlush.setGeometryExposed t (treeFuel t) win rect = .ok t') : Requests t t' :=
+  move_requests hg h0 h (setGeometryExposed_wf hg.wf h)
+
+/-- A restacking request only queues: the tree, hence `cursorSpec`, is untouched (its effect comes with the flush). -/
+theorem restore_requested_restack (t t' : Tree) (ch : Change) (win : Nat)
+    (h : requestHierarchyChange t (treeFuel t) ch win = .ok t') : Requests t t' := by
+  right
+  apply cursorSpec_wins
+  unfold requestHierarchyChange at h
+  simp only [bind_ok] at h
+  obtain ⟨w, _, h⟩ := h
+  split at h
+  · simp only [pure_ok] at h; subst h; rfl
+  · simp only [bind_ok, pure_ok] at h
+    obtain ⟨_, _, h⟩ := h
+    subst h; rfl
 
 /-- root 0, child 1 (focused itself, then its child took the focus), grandchild 2 lying outside window 1;
     nothing pending.  History: `win 1 0 1 1 3 3 0; win 2 1 5 5 1 1 0; focus 1; focus 2; flush`. -/
@@ -337,7 +384,7 @@ def hideCheck (fx : Fixes) (t : Tree) (win : Nat) : Bool :=
   | .ub _ => true
 
 /-- The full statement implies the executable check on any concrete instance. -/
-def hideCheck_of_full {fx : Fixes} (h : hide_requests_full fx) (t : Tree) (hwf : wfB t = true) (win : Nat) :
+def hideCheck_of_full {fx : Fixes} (h : hide_requests_full fx) (t : Tree) (hwf : Good15 t) (win : Nat) :
     hideCheck fx t win = true := by
   unfold hideCheck
   split
@@ -352,7 +399,7 @@ def hideCheck_of_full {fx : Fixes} (h : hide_requests_full fx) (t : Tree) (hwf :
     at window 1's cursor cell. -/
 theorem hide_requests_counterexample : ¬ hide_requests_full Fixes.none := by
   intro h
-  have := hideCheck_of_full h outsideChildTree (by decide) 2
+  have := hideCheck_of_full h outsideChildTree (good15_of_B (by decide)) 2
   revert this
   decide
 
@@ -396,14 +443,8 @@ def stepOp (fx : Fixes) (s : HSt) : Op → Res HSt
   | .closeW w => do let t ← closeWin fx s.tree w; pure { s with tree := t }
   | .restack ch w => do let t ← requestHierarchyChange s.tree (treeFuel s.tree) ch w; pure { s with tree := t }
   | .move w r => do
-    let ww ← WinTree.get s.tree w
-    let x ← setGeometry s.tree w r
-    match ww.parent with
-    | none => pure { s with tree := x.1 }
-    | some p => do
-      let t1 ← expose x.1 (treeFuel x.1) p (some ww.rect)
-      let t2 ← expose t1 (treeFuel t1) p (some r)
-      pure { s with tree := t2 }
+    let t ← WinFlush.setGeometryExposed s.tree (treeFuel s.tree) w r
+    pure { s with tree := t }
   | .exposeW w r => do let t ← expose s.tree (treeFuel s.tree) w r; pure { s with tree := t }
   | .flush => do
     let o ← WinFocus.flush fx s.tree
@@ -474,14 +515,8 @@ theorem wf_preserved (fx : Fixes) (s s' : HSt) (op : Op) (hc : op.covered = true
     simp only [stepOp, bind_ok, pure_ok] at hs
     obtain ⟨x, hx, hs⟩ := hs; subst hs; exact requestHierarchyChange_wf hwf hx
   | move w r =>
-    simp only [stepOp, bind_ok] at hs
-    obtain ⟨ww, _, x, hx, hs⟩ := hs
-    have h1 := setGeometry_wf hwf hx
-    split at hs
-    · simp only [pure_ok] at hs; subst hs; exact h1
-    · simp only [bind_ok, pure_ok] at hs
-      obtain ⟨t1, ht1, t2, ht2, hs⟩ := hs
-      subst hs; exact expose_wf (expose_wf h1 ht1) ht2
+    simp only [stepOp, bind_ok, pure_ok] at hs
+    obtain ⟨x, hx, hs⟩ := hs; subst hs; exact setGeometryExposed_wf hwf hx
   | exposeW w r =>
     simp only [stepOp, bind_ok, pure_ok] at hs
     obtain ⟨x, hx, hs⟩ := hs; subst hs; exact expose_wf hwf hx
